@@ -132,6 +132,33 @@ def l1_phase(pid, cfg, tier, seed, state, env):
             step = max(1, len(hist_lines) // max(1, k))
             for i in list(range(0, len(hist_lines), step))[:k]:
                 sample_for_coq.append((hist_lines[i], model[i]))
+    # focused search: when model and implementation disagree on histories and no monitor of this property fired on them, those
+    # histories are run again with restart and twin execution switched on and *every* failing transaction twin-executed
+    # (the first pass twin-executes three per history). Never runs on a tree where the correspondence holds.
+    l1_mis = [m for m in state["mismatches"] if m.get("level") == "l1"]
+    hit = set(f["history_name"] for f in state["failures"])
+    todo = [m for m in l1_mis if m["history"] not in hit][:12]
+    if todo:
+        out = os.path.join(wdir, "l1_focus")
+        os.makedirs(out, exist_ok=True)
+        ffile = os.path.join(out, "focus.jsonl")
+        with open(ffile, "w") as f:
+            for m in todo:
+                f.write(json.dumps({"name": m["history"], "history": m["history_json"]}) + "\n")
+        args = [os.path.join(env["HARNESS"], "bin/harness"), "l1", "-focus", ffile, "-seed", str(seed), "-out", out, "-twin", "1", "-restarts", "1"]
+        p = subprocess.run(["sh", "-c", "ulimit -v 16000000; exec \"$@\"", "sh"] + args, cwd=wdir, env=env["GOENV"],
+                           stdout=subprocess.DEVNULL, stderr=subprocess.PIPE, timeout=3400)
+        state["distribution"]["l1:focused-search-histories"] += len(todo)
+        if p.returncode == 0:
+            for line in open(os.path.join(out, "l1.jsonl")):
+                rec = json.loads(line)
+                for f in rec.get("failures") or []:
+                    if f["prop"] == pid:
+                        nmsgs = sum(len(t["msgs"]) for b in rec["history"]["blocks"] for t in (b.get("txs") or []))
+                        state["failures"].append({"sig": f["sig"], "level": "l1", "history_name": rec["name"], "height": f["height"], "detail": f["detail"],
+                                                  "history": rec["history"], "size": len(rec["history"]["blocks"]) * 3 + nmsgs * 10})
+        else:
+            env["log"]("focused search failed: " + p.stderr.decode(errors="replace")[-500:])
     if sample_for_coq:
         nchk, bad = incoq_histories(env, pid, [h for h, _ in sample_for_coq], [m for _, m in sample_for_coq])
         state["incoq"] += nchk
